@@ -77,10 +77,17 @@ func runC12(c *core.Ctx) {
 			o.At(fn.Site(st.Stmt, "t["+core.ExprStr(st.Index)+"] = "+core.ExprStr(st.Value)))
 			o.Require(core.ExprStr(st.Index) == "high", "children must be keyed by the upper bound of their byte interval")
 			// the descriptor appended must be that of the stored node
-			if !g.MustPassBefore(st.V, []*core.V{head}, appDesc) {
+			// (in the same pass through the loop body: after the store, or before it)
+			inPass := func(apps []*core.V) bool {
+				if g.MustPassBefore(st.V, []*core.V{head}, apps) {
+					return true
+				}
+				return !g.ReachFrom(succ(head, core.EdgeTrue), true, core.AvoidVs(append([]*core.V{head}, apps...)...))[st.V]
+			}
+			if !inPass(appDesc) {
 				o.FailAt(fn.Site(st.Stmt, ""), "this child can be stored without its descriptor being appended to desc (subtrees differing only here would share a descriptor and be merged)")
 			}
-			if !g.MustPassBefore(st.V, []*core.V{head}, appHigh) {
+			if !inPass(appHigh) {
 				o.FailAt(fn.Site(st.Stmt, ""), "this child can be stored without its upper bound being appended to desc")
 			}
 			// and the appended descriptor belongs to the same node variable
@@ -89,7 +96,7 @@ func runC12(c *core.Ctx) {
 				for _, a := range appDesc {
 					as := a.AST.(*ast.AssignStmt)
 					call := as.Rhs[0].(*ast.CallExpr)
-					if strings.HasPrefix(core.ExprStr(call.Args[1]), id.Name+".") && g.PathExists(st.V, a, core.AvoidVs(head)) {
+					if strings.HasPrefix(core.ExprStr(call.Args[1]), id.Name+".") && (g.PathExists(st.V, a, core.AvoidVs(head)) || g.PathExists(a, st.V, core.AvoidVs(head))) {
 						found = true
 					}
 				}
@@ -197,7 +204,7 @@ func runC12(c *core.Ctx) {
 						return true
 					}
 					if _, isID := ast.Unparen(e).(*ast.Ident); isID && sStable {
-						return resolveText(g, v, e, 2) == "len("+s.Name()+")"
+						return resolveText(g, v, e, 2) == "len("+core.VarName(s)+")"
 					}
 					return false
 				}
